@@ -33,7 +33,9 @@ ShapeRank(sh) == Len(sh) * 10000 + Code(sh[1]) * 256
 VarNames == <<"x", "y", "z">>
 VarName(p, k) == VarNames[((p + k - 2) % 3) + 1]
 
-MethSets == [G |-> <<"GET">>, P |-> <<"POST">>, GP |-> <<"GET", "POST">>]
+(* GR: GET and every other method a path item can declare (CONNECT is not one of them) *)
+MethSets == [G |-> <<"GET">>, P |-> <<"POST">>, GP |-> <<"GET", "POST">>,
+             GR |-> <<"GET", "PUT", "PATCH", "DELETE", "HEAD", "OPTIONS", "TRACE">>]
 MethKeys == {"G", "P", "GP"}
 
 Seg(sym, p, k) ==
@@ -75,6 +77,8 @@ OtherHttps == [OtherHost EXCEPT !.scheme = "https"]
 (* returned, and what it holds under a shared name must be the path template's value                       *)
 WithBV(sv, bv) == [bv |-> bv] @@ sv
 RelV1 == [abs |-> FALSE, base |-> <<"v1">>, slash |-> FALSE]
+(* the scheme as a server variable with an enum: {scheme}://api.example.com/v1, scheme in {https, http}, default https *)
+AbsSchV == [sch |-> [v |-> "scheme", enum |-> <<"https", "http">>]] @@ AbsV1
 ServerShapes ==
    [none     |-> <<>>,
     rel      |-> <<[abs |-> FALSE, base |-> <<"b">>, slash |-> FALSE]>>,
@@ -96,7 +100,9 @@ ServerShapes ==
     absbvx   |-> <<WithBV(AbsV1, <<[i |-> 1, v |-> "x"]>>)>>,    \* https://api.example.com/{x}
     relbvx   |-> <<WithBV(RelV1, <<[i |-> 1, v |-> "y"]>>)>>,    \* /{y}
     abshx    |-> <<[AbsV1 EXCEPT !.host = <<[v |-> "x", d |-> "api"], L("example"), L("com")>>]>>,    \* https://{x}.example.com/v1
-    abspx    |-> <<[AbsV1 EXCEPT !.port = <<[v |-> "y", d |-> "8443"]>>]>>]                             \* https://api.example.com:{y}/v1
+    abspx    |-> <<[AbsV1 EXCEPT !.port = <<[v |-> "y", d |-> "8443"]>>]>>,
+    absschv  |-> <<AbsSchV>>,                                    \* {scheme}://api.example.com/v1
+    schvdup  |-> <<ApiHttp, AbsSchV>>]                           \* http://api.example.com/v1, {scheme}://api.example.com/v1 (covers the first)                             \* https://api.example.com:{y}/v1
 (* path-level servers: the document declares https://api.example.com/v1, the path item   *)
 (* of the lowest-ranked ("psfirst") / highest-ranked ("pslast") template declares        *)
 (* http://other.example.com instead                                                      *)
@@ -110,7 +116,7 @@ SrvRank(k) == CASE k = "none" -> 1 [] k = "rel" -> 2 [] k = "relslash" -> 3 [] k
                 [] k = "abs" -> 5 [] k = "absvar" -> 6 [] k = "two" -> 7 [] k = "psfirst" -> 8 [] k = "pslast" -> 9
                 [] k = "relpfx" -> 10 [] k = "abspfx" -> 11 [] k = "schemes" -> 12 [] k = "ports" -> 13 [] k = "dup" -> 14
                 [] k = "absbv" -> 15 [] k = "relbv" -> 16 [] k = "absbvx" -> 17 [] k = "relbvx" -> 18 [] k = "abshx" -> 19
-                [] k = "abspx" -> 20 [] k = "psschemes" -> 21
+                [] k = "abspx" -> 20 [] k = "psschemes" -> 21 [] k = "absschv" -> 22 [] k = "schvdup" -> 23
 
 WithOwn(t, svs) == [segs |-> t.segs, ops |-> t.ops, servers |-> svs]
 Doc(tm, sk) ==
@@ -214,7 +220,7 @@ ServerVariants(doc, p) ==
                  ELSE {})
 
 MainMethods == {"GET", "POST"}
-OddMethods == {"DELETE", "PROPFIND", "get", "HEAD", "OPTIONS"}      \* HEAD is not GET: a template that declares only GET has no HEAD operation
+OddMethods == {"DELETE", "PROPFIND", "get", "HEAD", "OPTIONS", "PUT", "PATCH", "TRACE", "CONNECT"}      \* HEAD is not GET: a template that declares only GET has no HEAD operation
 
 (* a relative URL must not start with "//" (it would be read as an authority) *)
 WellFormed(r) == Len(r.u.path) > 0 /\ (r.u.abs \/ r.u.path[1] # "" \/ Len(r.u.path) = 1)
@@ -233,6 +239,8 @@ Requests(doc) ==
        T == {doc.templates[k] : k \in 1..Len(doc.templates)}
        kind == KindOf(doc)
        main == {[m |-> m, u |-> Under(sv, p)] : m \in MainMethods, p \in ResPaths(doc), sv \in AllServers(doc)}
+       \* (undeclared for a template with GET / POST only, declared ones for a template with the method set GR;
+       \*  CONNECT is a method no path item can declare)
        odd == {[m |-> m, u |-> Under(S[1], BaseFill(t))] : m \in OddMethods, t \in T}
        srv == UNION {{[m |-> t.ops[1].m, u |-> u] : u \in ServerVariants(doc, BaseFill(t))} : t \in T}
        \* every fill of every template again with "?", a query, a query and a fragment, a fragment alone
@@ -243,7 +251,10 @@ Requests(doc) ==
                               i \in {j \in 1..Len(t.segs) : IsVar(t.segs[j])}, x \in {"x%20y", "a%2Fb"}} : t \in T}
        \* server variables at other values than their defaults: "v2", and "v" -- the value BaseFill gives a path variable
        altv == UNION {{[m |-> t.ops[1].m, u |-> UnderAlt(sv, BaseFill(t), val)] : val \in {"v2", "v"}, sv \in {x \in AllServers(doc) : HasVars(x)}} : t \in T}
-   IN {r \in main \cup odd \cup srv \cup tails \cup encv \cup altv : WellFormed(r)}
+       \* a scheme variable at each of its values, and at one outside its enum
+       schv == UNION {UNION {{[m |-> t.ops[1].m, u |-> [Under(sv, BaseFill(t)) EXCEPT !.scheme = sc]] :
+                                sc \in SchemeSet(sv) \cup {"ftp"}} : sv \in {x \in AllServers(doc) : HasSchemeVar(x)}} : t \in T}
+   IN {r \in main \cup odd \cup srv \cup tails \cup encv \cup altv \cup schv : WellFormed(r)}
 
 (* The order the requests of a document are run in (one router instance per chunk of     *)
 (* this sequence): first the main URLs, each with GET and then POST back to back -- so    *)
